@@ -194,8 +194,14 @@ func (ex *Exec) merge(states []*State, edges []T) *State {
 	sort.Strings(gkeys)
 	for _, g := range gkeys {
 		var vals []T
+		var srt Sort
 		for _, s := range states {
-			vals = append(vals, ex.ghostGet(s, g))
+			if v, ok := s.ghost[g]; ok {
+				srt = v.sort
+			}
+		}
+		for _, s := range states {
+			vals = append(vals, ex.ghostGetSort(s, g, srt))
 		}
 		out.ghost[g] = ex.mergeVals("m."+g, vals, edges)
 	}
